@@ -37,6 +37,8 @@ def c17_nontrivial(case, v):
     if k == "trypath":
         # a rebuilt tour that differs from the input path, under the theorems' hypotheses
         return bool(info.get("hyp")) and impl.get("r") is not None and impl.get("r") != case["path"]
+    if k == "lkh_grid":
+        return True
     if k in ("lkh", "lkh_pts"):
         return len(case["path"]) >= 4 and impl.get("paths") and impl["paths"][-1] != case["path"]
     if k == "dbscan":
